@@ -23,6 +23,25 @@ PROPS = {
         'design_ref': 'DESIGN.md 5 C01',
         'explanation': 'wire format contracts',
     },
+    'C02': {
+        'modules': ['contracts.c02'],
+        'level': 'proof',
+        'trusted_base': COMMON_TB,
+        'assumptions': [
+            'SHA-256 is an uninterpreted total function with 32-byte output (same symbol in code and spec)',
+            'A_hash_injective is NOT assumed by any proved unit: the "differs exactly when" clause is proved for the hash preimages (full vs stripped serialisation); it carries over to the digests only for a collision-free hash',
+            'elements of symbolic vin/vout sequences are modelled as instances of the immutable element class (from_txin/from_txout of such elements is the identity); copies made for mutable elements have equal field values',
+            'the cache slots of symbolic immutable objects are unset on entry (the cached path is covered by the C09 cache-validity invariant)',
+            'C01 serialiser contracts (proved there) are used at call sites',
+        ],
+        'level_text': 'GetTxid = H2(stripped encoding) on both branches of its witness test; GetHash = H2(full encoding) '
+                      'for the mutable and the immutable class; CBlock.GetHash = H2(80-byte header) independent of vtx; '
+                      '__eq__/__hash__ are functions of the serialisation for all mutable/immutable pairings; lemmas: '
+                      'stripped encoding independent of witness, full != stripped iff some stack non-empty.',
+        'level_note': 'trusted: pyvc, z3/cvc5, hash functions uninterpreted, C01 contracts, specs/ids.py',
+        'design_ref': 'DESIGN.md 5 C02',
+        'explanation': 'identifier contracts over the C01 encoders',
+    },
     'C17': {
         'modules': ['contracts.c17'],
         'level': 'proof',
